@@ -200,3 +200,11 @@ Theorem C08_elementwise_binary_ops_broadcast :
   forallb (fun o => str_mem o broadcast_ops || String.eqb o "Clip") GS_ELEMENTWISE_BINARY_OPS = true.
 Proof. exact elementwise_binary_ops_broadcast. Qed.
 Print Assumptions C08_elementwise_binary_ops_broadcast.
+
+(* (V) layout rules on ANY annotation (ints, symbols, unknown), every Transpose / same-shape node of every export: a node is
+   flagged only when the declared dims of its output and what the rule gives from the declared dims of its input have
+   different rank or, at some axis, cannot both be true for every binding of the graph-input symbols *)
+Theorem C08_layout_contradiction_sound : forall free a b, dims_contra free a b = true ->
+  length a <> length b \/ exists i rho, forall n, ~ (dim_ok rho (nth i a DUnk) n /\ dim_ok rho (nth i b DUnk) n).
+Proof. exact dims_contra_sound. Qed.
+Print Assumptions C08_layout_contradiction_sound.
